@@ -99,6 +99,12 @@ def run(m, tier):
     for f in r1c.findings:
         f.rule = "C13.R3"
     results = [r1_search(m), rr.rule_queue(m, "C13.R2"), r1c]
+    r5 = C11.r2_nodes(m, ctx, blocks)
+    r5.rule = "C13.R5"
+    r5.title = "unresolved Include_Stmt nodes collected by a reader-level matcher are kept or restored when it reports no match (shared with C11.R2ii)"
+    for f in r5.findings:
+        f.rule = "C13.R5"
+    results.append(r5)
     from rules import regex_rules
     results += regex_rules.c13_rules(m)
     expl = ("Decides structural clauses of C13: the include search visits self.include_dirs in order and stops at the first existing "
